@@ -528,6 +528,9 @@ class Executor:
         if m:
             # tuple-struct constant `Name(c0, c1, ..)`: its fields (constants without the `const` keyword)
             return ("tuple", [self.const_val(x) for x in split_top(m.group(1))])
+        m = re.match(r"^\{(alloc\d+): &.*\}$", t)
+        if m:
+            return ("ref", Place("*static:" + m.group(1)))      # reference to a static: opaque memory of its own
         if re.match(r"^[A-Za-z_][\w:<>, ]*\{\{.*\}\}$", t):
             return ("unit",)      # struct constant printed field by field (e.g. alloc Layout): opaque, leaves unconstrained
         if t.startswith('"') or re.match(r"^[A-Za-z_][\w:]*$", t) or t == "()" or t.startswith("PhantomData") or t.startswith("ZeroSized:") or t.startswith("{closure@"):
